@@ -3,6 +3,8 @@ shim object or real pandas object) and returns the observation plus the full set
 modules select the labels they claim (`pick`)."""
 from __future__ import annotations
 
+from typing import Optional as Opt
+
 import z3
 
 from pvinstall import install
@@ -878,3 +880,487 @@ def subsample_case(v, shape, N, which):
     if o["kind"] == "accept":
         asserts.append(("subsample/returns_whole_object", H.equal_to_snapshot(v, o["out"], snap)))
     return dict(obs=o, asserts=asserts, facts=dict(kind=o["kind"], reason=o.get("reason"), h=h, t=t, n=n, msg=o.get("msg")))
+
+
+# ------------------------------------------------------------------ check options do only what they document (C19)
+def _fc_present(res, N):
+    fc = res.failure_cases
+    if fc is None:
+        return None
+    return fc
+
+
+def _failing_rows(v, res, N, labels):
+    """per input position: term/bool 'row is listed among the failure cases of this CheckResult' (labels distinct)"""
+    fc = res.failure_cases
+    if fc is None:
+        return [v.holds(False)] * N
+    if isinstance(fc, (symframe.Series, symframe.DataFrame)):
+        if len(fc.present) == N:
+            return [v.holds(p) for p in fc.present]
+        return None
+    got = set(int(x) for x in fc.index.tolist()) if hasattr(fc, "index") else set()
+    return [v.vals.term(labels[i]) in got for i in range(N)]
+
+
+def _as_bool(v, x):
+    if isinstance(x, SymBoolT):
+        return x.z
+    return z3.BoolVal(bool(x)) if v.sym else bool(x)
+
+
+from symx import SymBool as SymBoolT  # noqa: E402
+
+
+def option_case(v, what, N, opts):
+    opts = dict(opts)
+    kind = opts.get("kind", "float")
+    ser = v.series("x", kind, N, sname="s", labels="l", distinct_labels=True)
+    labels = [z3.Int(f"l{i}") for i in range(N)]
+    xs, ns = v.cells("x", kind, N, kind in ("float", "str"))
+    c = v.int("c")
+    m = 2
+    fam = opts.get("pred", "gt")
+    # predicate family: vectorised and element-wise twins + the documented element predicate
+    preds = {
+        "gt": (lambda s: s > c, lambda x: x > c, lambda x: x > v.z(c)),
+        "eq": (lambda s: s == c, lambda x: x == c, lambda x: x == v.z(c)),
+        "le": (lambda s: s <= c, lambda x: x <= c, lambda x: x <= v.z(c)),
+        "between": (lambda s: (s > c) & (s <= c + 3), lambda x: (x > c) & (x <= c + 3), lambda x: z3.And(x > v.z(c), x <= v.z(c) + 3)),
+    }
+    f_vec, f_el, f_z = preds[fam]
+    asserts, facts = [], dict(what=what)
+    Bz = lambda b: (b.z if isinstance(b, SymBoolT) else z3.BoolVal(bool(b))) if v.sym else bool(b)  # noqa: E731
+
+    def both(a, b):
+        return (a == b) if v.sym else (bool(a) == bool(b))
+
+    if what == "element_wise":
+        ina = bool(opts.get("ina", True))
+        saw_null = []
+
+        def f_elw(x):
+            if x is None or (isinstance(x, float) and x != x):
+                saw_null.append(1)
+                return False
+            return f_el(x)
+
+        r1 = Check(f_elw, element_wise=True, ignore_na=ina)(ser)
+        r2 = Check(f_vec, ignore_na=ina)(ser)
+        asserts.append(("opt/element_wise_verdict", v.holds(both(Bz(r1.check_passed), Bz(r2.check_passed)))))
+        f1, f2 = _failing_rows(v, r1, N, labels), _failing_rows(v, r2, N, labels)
+        if f1 is not None and f2 is not None:
+            asserts.append(("opt/element_wise_failure_rows", v.holds(zand(both(a, b) for a, b in zip(f1, f2)) if v.sym else all(a == b for a, b in zip(f1, f2)))))
+        asserts.append(("opt/ignore_na_hides_nulls", v.holds(not (ina and saw_null))))
+        # documented verdict: every (non-ignored) element satisfies the predicate
+        spec = zand(z3.If(ns[i], z3.BoolVal(ina), f_z(xs[i])) for i in range(N))
+        asserts.append(("opt/element_wise_spec", v.iff(Bz(r1.check_passed) if v.sym else bool(r1.check_passed), spec)))
+    elif what == "n_failure_cases":
+        n = v.choice("n", [1, 2, 3][:max(1, N)])
+        r_all, r_n = Check(f_vec)(ser), Check(f_vec, n_failure_cases=n)(ser)
+        asserts.append(("opt/n_failure_cases_verdict", v.holds(both(Bz(r_all.check_passed), Bz(r_n.check_passed)))))
+        fa, fn = _failing_rows(v, r_all, N, labels), _failing_rows(v, r_n, N, labels)
+        if fa is not None and fn is not None:
+            if v.sym:
+                cnt = lambda ts: z3.Sum([z3.If(t, 1, 0) for t in ts]) if ts else z3.IntVal(0)  # noqa: E731
+                asserts.append(("opt/n_failure_cases_subset", zand(z3.Implies(b, a) for a, b in zip(fa, fn))))
+                asserts.append(("opt/n_failure_cases_count", cnt(fn) == z3.If(cnt(fa) < n, cnt(fa), n)))
+                asserts.append(("opt/n_failure_cases_first", zand(z3.Implies(z3.And(fa[i], z3.Not(fn[i])), zand(z3.Not(fn[j]) for j in range(i + 1, N))) for i in range(N))))
+            else:
+                asserts.append(("opt/n_failure_cases_subset", all((not b) or a for a, b in zip(fa, fn))))
+                asserts.append(("opt/n_failure_cases_count", sum(fn) == min(sum(fa), n)))
+                asserts.append(("opt/n_failure_cases_first", all(not (fa[i] and not fn[i]) or not any(fn[i + 1:]) for i in range(N))))
+    elif what == "raise_warning":
+        plain = H.outcome(lambda: pa.SeriesSchema(PYK[kind], Check(f_vec), nullable=True, name="s").validate(ser))
+        warn = H.outcome(lambda: pa.SeriesSchema(PYK[kind], Check(f_vec, raise_warning=True), nullable=True, name="s").validate(ser))
+        asserts.append(("opt/raise_warning_never_raises", v.holds(warn["kind"] == "accept")))
+        asserts.append(("opt/raise_warning_warns_iff_fails", v.holds((warn.get("warnings", 0) > 0) == (plain["kind"] != "accept"))))
+        facts.update(plain=plain["kind"], warn=warn["kind"], warnings=warn.get("warnings"))
+    elif what == "alias":
+        a, b = v.int("a"), v.int("b")
+        pairs = [("eq", Check.eq(a), Check.equal_to(a)), ("ne", Check.ne(a), Check.not_equal_to(a)), ("gt", Check.gt(a), Check.greater_than(a)),
+                 ("ge", Check.ge(a), Check.greater_than_or_equal_to(a)), ("lt", Check.lt(a), Check.less_than(a)),
+                 ("le", Check.le(a), Check.less_than_or_equal_to(a))]
+        try:
+            pairs.append(("between", Check.between(a, b), Check.in_range(a, b)))
+        except ValueError:
+            pass
+        for name, x, y in pairs:
+            rx, ry = x(ser), y(ser)
+            asserts.append((f"opt/alias_{name}", v.holds(both(Bz(rx.check_passed), Bz(ry.check_passed)))))
+            fx, fy = _failing_rows(v, rx, N, labels), _failing_rows(v, ry, N, labels)
+            if fx is not None and fy is not None:
+                asserts.append((f"opt/alias_{name}_failure_rows", v.holds(zand(both(p, q) for p, q in zip(fx, fy)) if v.sym else all(p == q for p, q in zip(fx, fy)))))
+    elif what == "ignore_na_field":
+        # ignore_na=True == the same check on the null-free rows; ignore_na=False shows nulls to the function
+        seen = {True: [], False: []}
+
+        def mk(flag):
+            def fn(s):
+                seen[flag].append(s.hasnans)
+                return f_vec(s)
+            return fn
+
+        rT, rF = Check(mk(True), ignore_na=True)(ser), Check(mk(False), ignore_na=False)(ser)
+        specT = zand(z3.Or(ns[i], f_z(xs[i])) for i in range(N))
+        asserts.append(("opt/ignore_na_true_spec", v.iff(Bz(rT.check_passed) if v.sym else bool(rT.check_passed), specT)))
+        hn_T = seen[True][0] if seen[True] else False
+        asserts.append(("opt/ignore_na_true_never_shows_null", v.holds(z3.Not(Bz(hn_T)) if v.sym else not bool(hn_T))))
+        hn_F = seen[False][0] if seen[False] else False
+        anynull = zor(ns)
+        asserts.append(("opt/ignore_na_false_shows_null", v.iff(Bz(hn_F) if v.sym else bool(hn_F), anynull)))
+    elif what == "groupby":
+        keys = (["x", "y", "x", "y", "x"])[:N]
+        df = v.frame([("val", "float", False), ("key", "str", False, keys)], N, labels="l", distinct_labels=True)
+        xv, _ = v.cells("val_", "float", N, False)
+        groups = opts.get("groups")
+        got = {}
+
+        def gfn(d):
+            got.update(d)
+            return all_true(d)
+
+        def all_true(d):
+            out = True
+            for k in sorted(d):
+                out = out & (d[k] > c).all()
+            return out
+
+        res = Check(gfn, groupby="key", groups=groups)(df, "val")
+        want = sorted(set(keys) & set(groups)) if groups is not None else sorted(set(keys))
+        asserts.append(("opt/groupby_keys", v.holds(sorted(got) == want)))
+        spec = zand(xv[i] > v.z(c) for i in range(N) if keys[i] in want)
+        asserts.append(("opt/groupby_verdict", v.iff(Bz(res.check_passed) if v.sym else bool(res.check_passed), spec)))
+        # each group holds exactly the rows of its key
+        ok = True
+        for k in want:
+            g = got.get(k)
+            if g is None:
+                ok = False
+                continue
+            if isinstance(g, symframe.Series):
+                rows = [z3.is_true(z3.simplify(p)) for p in g.present]
+                ok = ok and rows == [keys[i] == k for i in range(N)]
+            else:
+                ok = ok and [float(x) for x in g.tolist()] == [float(v.vals.term(xv[i])) for i in range(N) if keys[i] == k]
+        asserts.append(("opt/groupby_group_contents", v.holds(ok)))
+    elif what == "wide_ignore_na":
+        df = v.frame([("p", "float"), ("q", "float")], N, labels="l", distinct_labels=True)
+        (xp, np_), (xq, nq) = v.cells("p_", "float", N, True), v.cells("q_", "float", N, True)
+        shown = []
+
+        def wide(d):
+            shown.append(d.isna().any(axis=None) if hasattr(d.isna(), "any") else False)
+            return d["p"] >= d["q"]
+
+        res = Check(lambda d: d["p"] >= d["q"], ignore_na=True)(df)
+        # documented: rows with any null value are ignored
+        spec = zand(z3.Or(np_[i], nq[i], xp[i] >= xq[i]) for i in range(N))
+        asserts.append(("opt/wide_ignore_na_spec", v.iff(Bz(res.check_passed) if v.sym else bool(res.check_passed), spec)))
+    else:
+        raise KeyError(what)
+    return dict(obs=None, asserts=asserts, facts=facts)
+
+
+PYK = {"int": int, "float": float, "str": str}
+
+
+# ------------------------------------------------------------------ schema transformations (C15)
+T_ATTRS = ["nullable", "unique", "coerce", "required", "drop_invalid_rows", "report_duplicates", "default", "title", "description", "regex"]
+
+
+def _attr_eq(v, x, y):
+    from symx import SymInt as _SI, SymReal as _SR
+
+    if isinstance(x, (SymBoolT, _SI, _SR)) or isinstance(y, (SymBoolT, _SI, _SR)):
+        r = (x == y)
+        return r.z if isinstance(r, SymBoolT) else z3.BoolVal(bool(r))
+    r = (x == y) and type(x) is type(y) if not (x is None or y is None) else (x is y)
+    return z3.BoolVal(bool(r)) if v.sym else bool(r)
+
+
+def _col_same(v, c1, c2, skip=()):
+    out = []
+    for a in T_ATTRS:
+        if a in skip:
+            continue
+        out.append((a, _attr_eq(v, getattr(c1, a, None), getattr(c2, a, None))))
+    # checks: same number, same statistics
+    s1 = [(k.name, sorted((n, repr(x)) for n, x in (k.statistics or {}).items())) for k in c1.checks]
+    s2 = [(k.name, sorted((n, repr(x)) for n, x in (k.statistics or {}).items())) for k in c2.checks]
+    out.append(("checks", z3.BoolVal(s1 == s2) if v.sym else s1 == s2))
+    out.append(("dtype", z3.BoolVal(str(c1.dtype) == str(c2.dtype)) if v.sym else str(c1.dtype) == str(c2.dtype)))
+    return out
+
+
+def _mk_tschema(v):
+    a = pa.Column(float, Check.ge(v.int("lo")), nullable=v.bool("a_null"), unique=v.bool("a_uni"), coerce=v.bool("a_co"), required=v.bool("a_req"),
+                  drop_invalid_rows=v.bool("a_dir"), report_duplicates=v.choice("a_rd", ["all", "exclude_first"]), default=v.choice("a_def", [None, 7]),
+                  title="ta", description="da")
+    b = pa.Column(int, Check.isin([1, 2]), nullable=v.bool("b_null"), title="tb")
+    return pa.DataFrameSchema({"a": a, "b": b}, strict=v.choice("strict", [False, True, "filter"]), name="s", ordered=v.bool("ordered"),
+                              unique_column_names=v.bool("ucn"), title="ts", description="ds")
+
+
+T_OPS = {
+    "update_column(b)": (lambda S: S.update_column("b", nullable=True), ["a"], {}),
+    "update_columns(b)": (lambda S: S.update_columns({"b": {"nullable": True}}), ["a"], {}),
+    "rename(b->z)": (lambda S: S.rename_columns({"b": "z"}), ["a"], {"b": "z"}),
+    "select([a,b])": (lambda S: S.select_columns(["a", "b"]), ["a", "b"], {}),
+    "select([b,a])": (lambda S: S.select_columns(["b", "a"]), ["a", "b"], {}),
+    "add(c)": (lambda S: S.add_columns({"c": pa.Column(int)}), ["a", "b"], {}),
+    "remove(b)": (lambda S: S.remove_columns(["b"]), ["a"], {}),
+    "set_index(b)": (lambda S: S.set_index(["b"]), ["a"], {}),
+}
+T_LAWS = {
+    "rename_back": lambda S: S.rename_columns({"a": "z"}).rename_columns({"z": "a"}),
+    "remove_after_add": lambda S: S.add_columns({"n": pa.Column(int)}).remove_columns(["n"]),
+    "select_all": lambda S: S.select_columns(["a", "b"]),
+    "reset_after_set": lambda S: S.set_index(["b"]).reset_index(),
+    "update_identity": lambda S: S.update_column("b", title="tb"),
+    "update_columns_identity": lambda S: S.update_columns({"b": {"title": "tb"}}),
+}
+T_INVALID = {
+    "remove_missing": lambda S: S.remove_columns(["nope"]),
+    "update_missing": lambda S: S.update_column("nope", nullable=True),
+    "update_name": lambda S: S.update_column("a", name="zz"),
+    "rename_missing": lambda S: S.rename_columns({"nope": "x"}),
+    "rename_clash": lambda S: S.rename_columns({"a": "b"}),
+    "select_missing": lambda S: S.select_columns(["a", "nope"]),
+    "set_index_missing": lambda S: S.set_index(["nope"]),
+    "reset_index_none": lambda S: S.reset_index(),
+}
+SCHEMA_LEVEL = ["strict", "name", "ordered", "unique_column_names", "title", "description", "coerce", "add_missing_columns", "drop_invalid_rows"]
+
+
+def transform_case(v, group, name):
+    S = _mk_tschema(v)
+    fp0 = fingerprint(S)
+    asserts, facts = [], dict(group=group, name=name)
+    if group == "op":
+        op, keep, renamed = T_OPS[name]
+        S2 = op(S)
+        for col in keep:
+            for attr, t in _col_same(v, S.columns[col], S2.columns[col]):
+                asserts.append((f"transform/untouched/{attr}", v.holds(t)))
+        for attr in SCHEMA_LEVEL:
+            asserts.append((f"transform/untouched_schema/{attr}", v.holds(_attr_eq(v, getattr(S, attr, None), getattr(S2, attr, None)))))
+        asserts.append(("transform/new_object", v.holds(S2 is not S)))
+        asserts.append(("transform/receiver_unchanged", v.holds(fingerprint(S) == fp0)))
+    elif group == "law":
+        S2 = T_LAWS[name](S)
+        eq = (S2 == S)
+        asserts.append(("transform/law_equal", v.holds(bool(eq))))
+        diffs = []
+        for col in ("a", "b"):
+            if col in S2.columns:
+                for attr, t in _col_same(v, S.columns[col], S2.columns[col]):
+                    asserts.append((f"transform/law_attr/{col}.{attr}", v.holds(t)))
+            else:
+                asserts.append((f"transform/law_attr/{col}.present", v.holds(False)))
+        asserts.append(("transform/law_column_order", v.holds(list(S2.columns) == list(S.columns))))
+        asserts.append(("transform/receiver_unchanged", v.holds(fingerprint(S) == fp0)))
+    elif group == "invalid":
+        import pandera.errors as E
+
+        try:
+            T_INVALID[name](S)
+            kind = "returned"
+        except (E.SchemaInitError, ValueError) as exc:
+            kind = type(exc).__name__
+        except Exception as exc:  # noqa: BLE001
+            kind = "leak:" + type(exc).__name__
+        facts["kind"] = kind
+        asserts.append(("transform/invalid_raises", v.holds(kind in ("SchemaInitError", "ValueError"))))
+        asserts.append(("transform/receiver_unchanged", v.holds(fingerprint(S) == fp0)))
+    return dict(obs=None, asserts=asserts, facts=facts)
+
+
+def transform_mirror_case(v, name, N):
+    """accept(S, D) => accept(op(S), op(D)) with op(D) built by the harness"""
+    lo = v.int("lo")
+    S = pa.DataFrameSchema({"a": pa.Column(float, Check.ge(lo), nullable=v.bool("a_null"), unique=v.bool("a_uni")),
+                            "b": pa.Column(int, Check.isin([1, 2, 3]), unique=v.bool("b_uni"))}, strict=v.choice("strict", [False, True]))
+    df = v.frame([("a", "float"), ("b", "int")], N, labels="l", distinct_labels=True)
+    o1 = H.outcome(lambda: S.validate(df))
+    if name == "rename(b->z)":
+        S2, df2 = S.rename_columns({"b": "z"}), _rename(df, {"b": "z"})
+    elif name == "remove(b)":
+        S2, df2 = S.remove_columns(["b"]), _drop(df, ["b"])
+    elif name == "select([b])":
+        S2, df2 = S.select_columns(["b"]), _drop(df, ["a"])
+    elif name == "add(c)":
+        S2 = S.add_columns({"c": pa.Column(int, Check.ge(0))})
+        df2 = v.frame([("a", "float"), ("b", "int"), ("c", "int", False, [0, 1, 2, 3, 4])], N, labels="l", distinct_labels=True)
+    elif name == "update(b nullable)":
+        S2, df2 = S.update_column("b", nullable=True), df
+    elif name == "set_index(b)":
+        S2, df2 = S.set_index(["b"]), _set_index(v, df, "b", N)
+    else:
+        raise KeyError(name)
+    o2 = H.outcome(lambda: S2.validate(df2))
+    asserts = [("transform/mirror", v.holds((o1["kind"] != "accept") or (o2["kind"] == "accept"))),
+               ("transform/mirror_channel", v.holds(channel_ok(o1) and channel_ok(o2)))]
+    return dict(obs=o2, asserts=asserts, facts=dict(before=o1["kind"], after=o2["kind"], reason=o2.get("reason")))
+
+
+def _rename(df, m):
+    if isinstance(df, symframe.DataFrame):
+        return symframe.DataFrame([(m.get(k, k), c) for k, c in df._cols], present=df.present, index=df.index.copy())
+    return df.rename(columns=m)
+
+
+def _drop(df, cols):
+    if isinstance(df, symframe.DataFrame):
+        return symframe.DataFrame([(k, c) for k, c in df._cols if k not in cols], present=df.present, index=df.index.copy())
+    return df.drop(columns=cols)
+
+
+def _set_index(v, df, col, N):
+    if isinstance(df, symframe.DataFrame):
+        c = df._get(col)
+        idx = symframe.Index(c.vals, df.present, name=col, dtype=c.dtype)
+        return symframe.DataFrame([(k, x) for k, x in df._cols if k != col], present=df.present, index=idx)
+    return df.set_index(col)
+
+
+# ------------------------------------------------------------------ DataFrameModel means its DataFrameSchema (C16)
+def _schemas_equal(v, s1, s2):
+    """structural equality up to check-function identity (fingerprints print symbolic attributes as their terms)"""
+    return fingerprint(s1) == fingerprint(s2)
+
+
+def model_case(v, shape, N):
+    lo, hi = v.int("lo"), v.int("hi")
+    nullable, unique, coerce = v.bool("nullable"), v.bool("unique"), v.bool("coerce")
+    strict = strict_v = v.choice("strict", [False, True, "filter"])
+    ordered = ordered_v = v.bool("ordered")
+    asserts, facts = [], dict(shape=shape)
+    extra_checks = []
+    if shape == "single":
+        class M(pa.DataFrameModel):
+            a: float = pa.Field(ge=lo, nullable=nullable, unique=unique, coerce=coerce)
+            b: int = pa.Field(isin=[1, 2, 3])
+
+            class Config:
+                strict = strict_v
+                ordered = ordered_v
+        spec = lambda: pa.DataFrameSchema({"a": pa.Column(float, Check.ge(lo), nullable=nullable, unique=unique, coerce=coerce),  # noqa: E731
+                                           "b": pa.Column(int, Check.isin([1, 2, 3]))}, strict=strict, ordered=ordered)
+        arr = [("a", "float"), ("b", "int")]
+        models = [M]
+    elif shape in ("override_field", "add_field", "three_level"):
+        class Base(pa.DataFrameModel):
+            a: float = pa.Field(ge=lo, nullable=nullable)
+            b: int = pa.Field(isin=[1, 2, 3])
+
+        if shape == "override_field":
+            class M(Base):
+                a: float = pa.Field(le=hi, unique=unique)
+            spec = lambda: pa.DataFrameSchema({"a": pa.Column(float, Check.le(hi), unique=unique), "b": pa.Column(int, Check.isin([1, 2, 3]))})  # noqa: E731
+            arr = [("a", "float"), ("b", "int")]
+        elif shape == "add_field":
+            class M(Base):
+                c: float = pa.Field(le=hi, nullable=True)
+            spec = lambda: pa.DataFrameSchema({"a": pa.Column(float, Check.ge(lo), nullable=nullable), "b": pa.Column(int, Check.isin([1, 2, 3])),  # noqa: E731
+                                               "c": pa.Column(float, Check.le(hi), nullable=True)})
+            arr = [("a", "float"), ("b", "int"), ("c", "float")]
+        else:
+            class Mid(Base):
+                c: float = pa.Field(le=hi, nullable=True)
+
+            class M(Mid):
+                a: float = pa.Field(gt=lo, nullable=nullable)
+            spec = lambda: pa.DataFrameSchema({"a": pa.Column(float, Check.gt(lo), nullable=nullable), "b": pa.Column(int, Check.isin([1, 2, 3])),  # noqa: E731
+                                               "c": pa.Column(float, Check.le(hi), nullable=True)})
+            arr = [("a", "float"), ("b", "int"), ("c", "float")]
+        base_fp = fingerprint(Base.to_schema())
+        base_spec = pa.DataFrameSchema({"a": pa.Column(float, Check.ge(lo), nullable=nullable), "b": pa.Column(int, Check.isin([1, 2, 3]))})
+        models = [M]
+        asserts.append(("model/parent_unchanged_by_subclass", v.holds(fingerprint(Base.to_schema()) == base_fp)))
+        asserts.append(("model/parent_schema", v.holds(_fp_cols(Base.to_schema()) == _fp_cols(base_spec))))
+    elif shape == "optional_alias":
+        class M(pa.DataFrameModel):
+            a: float = pa.Field(ge=lo, nullable=nullable, alias="a1")
+            b: Opt[int] = pa.Field(isin=[1, 2, 3])
+        spec = lambda: pa.DataFrameSchema({"a1": pa.Column(float, Check.ge(lo), nullable=nullable), "b": pa.Column(int, Check.isin([1, 2, 3]), required=False)})  # noqa: E731
+        arr = [("a1", "float")] + ([("b", "int")] if v.choice("has_b", [True, False]) else [])
+        models = [M]
+    elif shape == "check_methods":
+        class Base(pa.DataFrameModel):
+            a: float = pa.Field(nullable=nullable)
+            b: int
+
+            @pa.check("a")
+            def a_big(cls, s):  # noqa: N805
+                return s >= lo
+
+            @pa.dataframe_check
+            def wide(cls, d):  # noqa: N805
+                return d["b"] <= hi
+
+        class M(Base):
+            @pa.check("a")
+            def a_big(cls, s):  # noqa: N805  (overrides the parent's check of the same name)
+                return s > lo
+
+        spec = lambda: pa.DataFrameSchema({"a": pa.Column(float, Check(lambda s: s > lo), nullable=nullable), "b": pa.Column(int)},  # noqa: E731
+                                          checks=Check(lambda d: d["b"] <= hi))
+        arr = [("a", "float"), ("b", "int")]
+        models = [M]
+        pspec = pa.DataFrameSchema({"a": pa.Column(float, Check(lambda s: s >= lo), nullable=nullable), "b": pa.Column(int)}, checks=Check(lambda d: d["b"] <= hi))
+        extra_checks.append((Base, pspec))
+    elif shape == "config_extras":
+        class M(pa.DataFrameModel):
+            a: float = pa.Field(nullable=nullable)
+            b: int = pa.Field(ge=lo)
+
+            class Config:
+                coerce = False
+                unique = ["a", "b"]
+                add_missing_columns = False
+        spec = lambda: pa.DataFrameSchema({"a": pa.Column(float, nullable=nullable), "b": pa.Column(int, Check.ge(lo))}, unique=["a", "b"])  # noqa: E731
+        arr = [("a", "float"), ("b", "int")]
+        models = [M]
+    else:
+        raise KeyError(shape)
+    df = v.frame(arr, N, labels="l", distinct_labels=True)
+    M = models[0]
+    s1 = M.to_schema()
+    s1b = M.to_schema()
+    asserts.append(("model/to_schema_stable", v.holds(fingerprint(s1) == fingerprint(s1b) and bool(s1 == s1b))))
+    S = spec()
+    if shape not in ("check_methods",):
+        asserts.append(("model/schema_equals_spec", v.holds(_fp_cols(s1) == _fp_cols(S))))
+        facts["fp_model"], facts["fp_spec"] = None, None
+    om = H.outcome(lambda: M.validate(df))
+    os_ = H.outcome(lambda: S.validate(df))
+    asserts.append(("model/verdict_equals_schema", v.holds(om["kind"] == os_["kind"] and om.get("reason") == os_.get("reason"))))
+    for P, pspec in extra_checks:
+        op, osx = H.outcome(lambda: P.validate(df)), H.outcome(lambda: pspec.validate(df))
+        asserts.append(("model/parent_verdict", v.holds(op["kind"] == osx["kind"])))
+    facts.update(model=om["kind"], schema=os_["kind"], mreason=om.get("reason"), sreason=os_.get("reason"))
+    return dict(obs=om, asserts=asserts, facts=facts)
+
+
+def _rebuild(M):
+    """re-run the model's schema collection after Config attributes were assigned from provider values"""
+    try:
+        M.__schema__ = None
+        from pandera.api.dataframe import model as _m
+
+        cache = getattr(_m, "MODEL_CACHE", None)
+        if cache is not None:
+            for k in [k for k in cache if k[0] is M]:
+                del cache[k]
+        M.__config__, M.__extras__ = M._collect_config_and_extras()
+    except Exception:  # noqa: BLE001
+        pass
+    return M
+
+
+def _fp_cols(schema):
+    """fingerprint without names of check functions and without the schema name/title (models name the schema after the class)"""
+    fp = fingerprint(schema)
+    attrs = tuple((a, x) for a, x in fp[2] if a not in ("name", "title", "description"))
+    return (fp[0], fp[1], attrs, fp[3], fp[4])
